@@ -526,6 +526,12 @@ def run_case(case, ctx):
         try:
             t2, args2 = structure(other_case, spec["protein"], spec["cell"])
             fn(t2, args2)
+            if name.startswith("shrake_rupley"):
+                # ... and the same function with OTHER option values (more sphere points, another probe): work tables that
+                # are kept from call to call must not leak into a later call with smaller ones
+                md_ = __import__("mdtraj")
+                md_.shrake_rupley(t2, n_sphere_points=960, probe_radius=0.3)
+                ctx.observe("interleaved_other_options", name)
         except Exception as e:
             ctx.skip("context.interleaved-call", f"the in-between call raised {type(e).__name__}")
         else:
